@@ -151,7 +151,7 @@ def listlit(xs, f=lambda x: x) -> str:
 # evaluation of generated case files
 
 HEADER = """From Coq Require Import ZArith List String Bool PrimFloat.
-From Hexital Require Import Base.Prelude Base.Num Base.PyFloat Model.Manager Model.Candle Model.Readings Model.Analysis Model.Engine Inst.FloatInst Run.Check{extra}.
+From Hexital Require Import Base.Prelude Base.Num Base.PyFloat Model.Manager Model.Candle Model.Readings Model.Analysis Model.Engine Inst.FloatInst Spec.Steppers Run.Check{extra}.
 Import ListNotations.
 Local Open Scope Z_scope.
 Definition POW : list (float * Z * float) := {pow}.
